@@ -135,17 +135,26 @@ func vp8DecCase(x *Ctx, mk func(c *Case) (vp8Desc, []byte), cuts bool) {
 			}
 			c.Tag(tag)
 			p := &codecs.VP8Packet{}
+			// a second receiver with SetZeroAllocation(true) sees the same packets: the switch may cost
+			// metadata, not the payload ("returns the bytes that follow the descriptor" is evaluated on
+			// its result too)
+			z := &codecs.VP8Packet{}
+			z.SetZeroAllocation(true)
 			// two cases out of three decode into a USED receiver (it first decodes a descriptor
 			// with every optional field present and non-zero): "decodes to exactly the encoded
 			// values" must not depend on what the receiver held before (c11_decoder: any receiver).
 			if c.R.Chance(2, 3) {
 				callUnmarshal(p, []byte{0xB7, 0xF0, 0x92, 0x34, 0x56, 0xA5, 0x01})
+				callUnmarshal(z, []byte{0xB7, 0xF0, 0x92, 0x34, 0x56, 0xA5, 0x01})
 				if c.R.Bool() {
-					callUnmarshal(p, []byte{0x90, 0x20, byte(0x40 | c.R.Intn(64)), 0x07})
+					second := []byte{0x90, 0x20, byte(0x40 | c.R.Intn(64)), 0x07}
+					callUnmarshal(p, cloneBytes(second))
+					callUnmarshal(z, cloneBytes(second))
 				}
 				c.Tag("used-receiver")
 			}
 			r := callUnmarshal(p, wire[:k])
+			rz := callUnmarshal(z, cloneBytes(wire[:k]))
 			head := false
 			try(func() { head = p.IsPartitionHead(wire[:k]) })
 			r.write(&c.O)
@@ -159,6 +168,7 @@ func vp8DecCase(x *Ctx, mk func(c *Case) (vp8Desc, []byte), cuts bool) {
 				writeVP8Md(&c.O, p)
 			}
 			c.O.Bool(head)
+			rz.write(&c.O)
 		})
 	}
 }
@@ -254,6 +264,10 @@ func vp8RtCase(x *Ctx, mk func(c *Case) (enable bool, warm int, calls []PayCall)
 		pay := &codecs.VP8Payloader{EnablePictureID: enable}
 		vp8Warm(pay, warm)
 		rcv := &codecs.VP8Packet{}
+		// the same packets also go to ONE receiver with SetZeroAllocation(true): losslessness is
+		// evaluated on what it returns as well
+		zrcv := &codecs.VP8Packet{}
+		zrcv.SetZeroAllocation(true)
 		c.O.Nat(len(calls))
 		nontrivial := false
 		// the whole history is payloaded first and read afterwards (packets wait in a send queue while
@@ -281,6 +295,8 @@ func vp8RtCase(x *Ctx, mk func(c *Case) (enable bool, warm int, calls []PayCall)
 				head := false
 				try(func() { head = rcv.IsPartitionHead(f) })
 				c.O.Bool(head)
+				rz := callUnmarshal(zrcv, cloneBytes(f))
+				rz.write(&c.O)
 			}
 		}
 		if !nontrivial {
@@ -386,6 +402,27 @@ func genC11Rt(x *Ctx) {
 			}
 			return enable, warm, calls
 		})
+	}
+	// ONE frame cut into more than 2^16 packets (a frame over 64 KiB at a tiny MTU): a per-frame packet
+	// counter of 16 bits wraps there.  65536 packets exactly, one more, a few more; then a small frame.
+	for _, enable := range []bool{false, true} {
+		for _, extra := range []int{0, 1, 3} {
+			enable, extra := enable, extra
+			if !x.Thorough() && extra != 3 {
+				continue // each case is ≈ 65 k packets: one per mode in the quick tier
+			}
+			vp8RtCase(x, func(c *Case) (bool, int, []PayCall) {
+				c.Tag("packets>=2^16")
+				warm := 0
+				if enable {
+					warm = c.R.Pick(0, 5, 127, 128, 300)
+				}
+				room := c.R.Range(1, 2)
+				mtu := vp8HdrLen(enable, warm) + room
+				n := (65536+extra-1)*room + c.R.Range(1, room)
+				return enable, warm, []PayCall{{uint16(mtu), c.R.Bytes(n)}, {uint16(mtu), c.R.Bytes(3)}}
+			})
+		}
 	}
 }
 
